@@ -29,6 +29,7 @@ func genC06Case(t *rapid.T) SSOCase {
 	}
 	host := effHost(c)
 	c.Prelude = genPrelude(t, spec, host)
+	c.Noise = rapid.IntRange(0, 2).Draw(t, "noise") == 0
 	c.SP = rapid.IntRange(0, len(spec.SPs)-1).Draw(t, "sp")
 	c.Req = genValidAuthn(t, spec, c.SP, host)
 	c.Style = genXMLStyle(t)
